@@ -1,5 +1,7 @@
 import NavisModel.Props.C01
 import NavisModel.Props.C05
+import NavisModel.Props.C08
 import NavisModel.Props.C09
 import NavisModel.Props.C10
+import NavisModel.Props.C12
 import NavisModel.Props.C20
